@@ -719,3 +719,179 @@ Example C08_tr_pure_run :
   | CLite.Ok (_, m1) => (nth_error m1 (g + 8), nth_error m1 (g + 9)) = (Some [CLite.VInt 7], Some [CLite.VInt 3])
   | CLite.Err _ => False end.
 Proof. vm_compute. repeat split; reflexivity. Qed.
+
+(* ---------------------------------------------------------------------------------------------------------------------- *)
+(* lbuf_region, vi_yank, vi_delete on the C TEXT (coq/TrViOp.v).  The buffer is in memory as TrMot.lbuf_at says, reached through
+   bufs[0].lb (TrViOp.ed_at).  The allocating callees are oracles (CLiteExt.callx) that return a FRESH block with the model's bytes
+   (record TrViOp.oracles: uc_sub = UcDefs.uc_sub, uc_dup, uc_cat, lbuf_cp = the concatenated lines, the string builder sbuf_make .. sbuf_free);
+   reg_put, lbuf_edit, vi_drawfix: one hypothesis per call, reg_put may change only blocks the register file owns (`own`) and
+   lbuf_edit only blocks the line buffer owns (`lown`), both may allocate (TrViOp.rframe / eframe).
+   * lbuf_region returns a fresh block with TrViOp.region_b: uc_sub of the one line, or the rest of line r1 ++ lines r1+1..r2-1 ++ the
+     start of line r2; the three temporaries are freed.
+   * vi_yank / vi_delete call reg_put(vi_ybuf, that block, lnmode) on the memory TrViOp.put_mem: the text is region_b of
+     (r1, lnmode ? 0 : o1) .. (r2, lnmode ? -1 : o2); the block is freed afterwards.
+   * vi_yank: 0 and the cursor untouched for a line-wise yank that starts on the cursor row; else xrow = r1, xoff = o1 (character-wise)
+     or unchanged (line-wise), 1 is returned.
+   * vi_delete line-wise: lbuf_edit(xb, NULL, r1, r2 + 1); character-wise: lbuf_edit(xb, line, r1, r2 + 1) where the block `line` holds
+     (line r1 up to o1) ++ (line r2 from o2); then xrow = r1 clamped to the last line (TrViOp.del_row), xoff = lbuf_indents of the NEW
+     buffer at r1 (line-wise) or o1; every temporary is freed; vi_drawfix(r1, r2, !lnmode, 0) sees that memory; 16 (VC_OK) is returned. *)
+From NV Require CLiteExt TrMot TrViOp.
+Local Close Scope Z_scope.
+Local Close Scope N_scope.
+Theorem C08_tr_lbuf_region : forall (ext : nat -> list CLite.val -> CLite.mem -> CLite.res (CLite.val * CLite.mem)) (fuel : nat),
+       TrViOp.oracles ext ->
+       forall (D : nat) (m : CLite.mem) (lb bln : nat) (lbs : list nat) (lines : list bytes) (r1 o1 r2 o2 : Z),
+       TrViOp.ed_at m lb bln lbs lines ->
+       (0 <= r1 + 1 <= 2147483647)%Z ->
+       TrViOp.region_in lines r1 o1 r2 o2 ->
+       CLiteExt.callx ext GenCFuncs.cprog fuel (S (S D)) GenCFuncs.F_lbuf_region (CLite.VPtr lb 0 :: CLite.VInt r1 :: CLite.VInt o1 :: CLite.VInt r2 :: CLite.VInt o2 :: nil) m =
+       CLite.Ok (CLite.VPtr (length m) 0, m ++ CLite.cstr_block (CLiteProps.zb (TrViOp.region_b lines r1 o1 r2 o2)) :: TrViOp.rg_tail r1 r2).
+Proof. exact TrViOp.tr_lbuf_region. Qed.
+Print Assumptions C08_tr_lbuf_region.
+
+Theorem C08_tr_vi_yank : forall (ext : nat -> list CLite.val -> CLite.mem -> CLite.res (CLite.val * CLite.mem)) (fuel : nat),
+       TrViOp.oracles ext ->
+       forall (own : nat -> Prop) (D : nat) (m : CLite.mem) (lb bln : nat) (lbs : list nat) (lines : list bytes) (r1 o1 r2 o2 ln y xr xo : Z)
+         (u : CLite.val) (m2 : CLite.mem),
+       TrViOp.ed_at m lb bln lbs lines ->
+       (0 <= r1 + 1 <= 2147483647)%Z ->
+       TrViOp.region_in lines r1 (TrViOp.op_o1 ln o1) r2 (TrViOp.op_o2 ln o2) ->
+       CLiteProps.cell_at m GenCFuncs.G_vi_ybuf y ->
+       CLiteProps.cell_at m GenCFuncs.G_xrow xr ->
+       CLiteProps.cell_at m GenCFuncs.G_xoff xo ->
+       CLiteTac.int_ok y ->
+       CLiteTac.int_ok xr ->
+       CLiteTac.int_ok xo ->
+       CLiteTac.int_ok r1 ->
+       CLiteTac.int_ok o1 ->
+       (forall b : nat, own b -> b < length m) ->
+       ~ own GenCFuncs.G_xrow ->
+       ~ own GenCFuncs.G_xoff ->
+       let M1 := TrViOp.put_mem m lines r1 o1 r2 o2 ln in
+       ext GenCFuncs.X_reg_put (CLite.VInt y :: CLite.VPtr (length m) 0 :: CLite.VInt ln :: nil) M1 = CLite.Ok (u, m2) ->
+       TrViOp.rframe own M1 m2 ->
+       let m3 := CLiteProps.upd m2 (length m) nil in
+       CLiteExt.callx ext GenCFuncs.cprog fuel (S (S (S (S D)))) GenCFuncs.F_vi_yank (CLite.VInt r1 :: CLite.VInt o1 :: CLite.VInt r2 :: CLite.VInt o2 :: CLite.VInt ln :: nil) m =
+       (if TrViOp.yank_stay ln xr r1
+        then CLite.Ok (CLite.VInt 0, m3)
+        else CLite.Ok (CLite.VInt 1, CLiteProps.upd (CLiteProps.upd m3 GenCFuncs.G_xrow (CLite.VInt r1 :: nil)) GenCFuncs.G_xoff (CLite.VInt (if TrViOp.lnb ln then xo else o1) :: nil))).
+Proof. exact TrViOp.tr_vi_yank. Qed.
+Print Assumptions C08_tr_vi_yank.
+
+Theorem C08_tr_vi_delete_lines : forall (ext : nat -> list CLite.val -> CLite.mem -> CLite.res (CLite.val * CLite.mem)) (fuel : nat),
+       TrViOp.oracles ext ->
+       forall (own lown : nat -> Prop) (D : nat) (m : CLite.mem) (lb bln : nat) (lbs : list nat) (lines : list bytes)
+         (r1 o1 r2 o2 ln y xr xo : Z) (u : CLite.val) (m2 : CLite.mem),
+       TrViOp.ed_at m lb bln lbs lines ->
+       (0 <= r1 + 1 <= 2147483647)%Z ->
+       CLiteTac.int_ok r2 /\ CLiteTac.int_ok (r2 + 1) ->
+       TrViOp.region_in lines r1 (TrViOp.op_o1 ln o1) r2 (TrViOp.op_o2 ln o2) ->
+       CLiteProps.cell_at m GenCFuncs.G_vi_ybuf y ->
+       CLiteProps.cell_at m GenCFuncs.G_xrow xr ->
+       CLiteProps.cell_at m GenCFuncs.G_xoff xo ->
+       CLiteTac.int_ok y ->
+       CLiteProps.str_at m GenCFuncs.G_lit__0 nil ->
+       CLiteProps.str_at m GenCFuncs.G_lit_0a_1 (10%N :: nil) ->
+       (forall b : nat, own b -> b < length m) ->
+       (forall b : nat, In b (GenCFuncs.G_xrow :: GenCFuncs.G_xoff :: GenCFuncs.G_lit__0 :: GenCFuncs.G_lit_0a_1 :: GenCFuncs.G_bufs :: lb :: bln :: lbs) -> ~ own b) ->
+       (forall b : nat, lown b -> b < length m) ->
+       ~ lown GenCFuncs.G_xrow /\ ~ lown GenCFuncs.G_xoff ->
+       ext GenCFuncs.X_reg_put (CLite.VInt y :: CLite.VPtr (length m) 0 :: CLite.VInt ln :: nil) (TrViOp.put_mem m lines r1 o1 r2 o2 ln) = CLite.Ok (u, m2) ->
+       TrViOp.rframe own (TrViOp.put_mem m lines r1 o1 r2 o2 ln) m2 ->
+       forall (u' : CLite.val) (m6 : CLite.mem) (bln' : nat) (lbs' : list nat) (lines' : list bytes) (ud : CLite.val) (m8 : CLite.mem),
+       TrViOp.lnb ln = true ->
+       ext GenCFuncs.X_lbuf_edit (CLite.VPtr lb 0 :: CLite.VInt 0 :: CLite.VInt r1 :: CLite.VInt (r2 + 1) :: nil) (TrViOp.del_mem5 m m2) = CLite.Ok (u', m6) ->
+       TrViOp.eframe lown (TrViOp.del_mem5 m m2) m6 ->
+       TrViOp.ed_cur m6 lb bln' lbs' lines' ->
+       TrMot.maxlen lines' < fuel ->
+       ext GenCFuncs.X_vi_drawfix (CLite.VInt r1 :: CLite.VInt r2 :: CLite.VInt 0 :: CLite.VInt 0 :: nil) (TrViOp.del_lines_mem r1 m2 m6 lines') = CLite.Ok (ud, m8) ->
+       CLiteExt.callx ext GenCFuncs.cprog fuel (S (S (S (S D)))) GenCFuncs.F_vi_delete (CLite.VInt r1 :: CLite.VInt o1 :: CLite.VInt r2 :: CLite.VInt o2 :: CLite.VInt ln :: nil) m = CLite.Ok (CLite.VInt 16, m8).
+Proof. exact TrViOp.tr_vi_delete_lines. Qed.
+Print Assumptions C08_tr_vi_delete_lines.
+
+Theorem C08_tr_vi_delete_chars : forall (ext : nat -> list CLite.val -> CLite.mem -> CLite.res (CLite.val * CLite.mem)) (fuel : nat),
+       TrViOp.oracles ext ->
+       forall (own lown : nat -> Prop) (D : nat) (m : CLite.mem) (lb bln : nat) (lbs : list nat) (lines : list bytes)
+         (r1 o1 r2 o2 ln y xr xo : Z) (u : CLite.val) (m2 : CLite.mem),
+       TrViOp.ed_at m lb bln lbs lines ->
+       (0 <= r1 + 1 <= 2147483647)%Z ->
+       CLiteTac.int_ok r2 /\ CLiteTac.int_ok (r2 + 1) ->
+       TrViOp.region_in lines r1 (TrViOp.op_o1 ln o1) r2 (TrViOp.op_o2 ln o2) ->
+       CLiteProps.cell_at m GenCFuncs.G_vi_ybuf y ->
+       CLiteProps.cell_at m GenCFuncs.G_xrow xr ->
+       CLiteProps.cell_at m GenCFuncs.G_xoff xo ->
+       CLiteTac.int_ok y ->
+       CLiteTac.int_ok o1 ->
+       (forall b : nat, own b -> b < length m) ->
+       (forall b : nat, In b (GenCFuncs.G_xrow :: GenCFuncs.G_xoff :: GenCFuncs.G_lit__0 :: GenCFuncs.G_lit_0a_1 :: GenCFuncs.G_bufs :: lb :: bln :: lbs) -> ~ own b) ->
+       (forall b : nat, lown b -> b < length m) ->
+       ~ lown GenCFuncs.G_xrow /\ ~ lown GenCFuncs.G_xoff ->
+       ext GenCFuncs.X_reg_put (CLite.VInt y :: CLite.VPtr (length m) 0 :: CLite.VInt ln :: nil) (TrViOp.put_mem m lines r1 o1 r2 o2 ln) = CLite.Ok (u, m2) ->
+       TrViOp.rframe own (TrViOp.put_mem m lines r1 o1 r2 o2 ln) m2 ->
+       forall (u' : CLite.val) (m6 : CLite.mem) (bln' : nat) (lbs' : list nat) (lines' : list bytes) (ud : CLite.val) (m8 : CLite.mem),
+       TrViOp.lnb ln = false ->
+       TrViOp.sub_in (TrViOp.getb lines r1) 0 o1 ->
+       TrViOp.sub_in (TrViOp.getb lines r2) o2 (-1) ->
+       ext GenCFuncs.X_lbuf_edit (CLite.VPtr lb 0 :: CLite.VPtr (length m2 + 2) 0 :: CLite.VInt r1 :: CLite.VInt (r2 + 1) :: nil) (TrViOp.del_mem5c m lines r1 o1 r2 o2 m2) =
+       CLite.Ok (u', m6) ->
+       TrViOp.eframe lown (TrViOp.del_mem5c m lines r1 o1 r2 o2 m2) m6 ->
+       TrViOp.ed_cur (CLiteProps.upd m6 (length m2 + 2) nil) lb bln' lbs' lines' ->
+       ext GenCFuncs.X_vi_drawfix (CLite.VInt r1 :: CLite.VInt r2 :: CLite.VInt 1 :: CLite.VInt 0 :: nil) (TrViOp.del_chars_mem r1 o1 m2 m6 lines') = CLite.Ok (ud, m8) ->
+       CLiteExt.callx ext GenCFuncs.cprog fuel (S (S (S (S D)))) GenCFuncs.F_vi_delete (CLite.VInt r1 :: CLite.VInt o1 :: CLite.VInt r2 :: CLite.VInt o2 :: CLite.VInt ln :: nil) m = CLite.Ok (CLite.VInt 16, m8).
+Proof. exact TrViOp.tr_vi_delete_chars. Qed.
+Print Assumptions C08_tr_vi_delete_chars.
+
+Theorem C08_tr_vi_delete_lines_cursor : forall (r1 : Z) (m2 m6 : CLite.mem) (lines' : list bytes) (x0 o0 : Z),
+       CLiteProps.cell_at m6 GenCFuncs.G_xrow x0 ->
+       CLiteProps.cell_at m6 GenCFuncs.G_xoff o0 ->
+       GenCFuncs.G_xrow < length m2 ->
+       GenCFuncs.G_xoff < length m2 ->
+       length m2 + 1 < length m6 ->
+       CLiteProps.cell_at (TrViOp.del_lines_mem r1 m2 m6 lines') GenCFuncs.G_xrow (TrViOp.del_row r1 (Z.of_nat (length lines'))) /\
+       CLiteProps.cell_at (TrViOp.del_lines_mem r1 m2 m6 lines') GenCFuncs.G_xoff (MotDefs.lbuf_indents (map MotDefs.chop lines') r1).
+Proof. exact TrViOp.del_lines_mem_cur. Qed.
+Print Assumptions C08_tr_vi_delete_lines_cursor.
+
+Theorem C08_tr_vi_delete_chars_cursor : forall (r1 o1 : Z) (m2 m6 : CLite.mem) (lines' : list bytes) (x0 o0 : Z),
+       CLiteProps.cell_at m6 GenCFuncs.G_xrow x0 ->
+       CLiteProps.cell_at m6 GenCFuncs.G_xoff o0 ->
+       GenCFuncs.G_xrow < length m2 ->
+       GenCFuncs.G_xoff < length m2 ->
+       length m2 + 2 < length m6 ->
+       CLiteProps.cell_at (TrViOp.del_chars_mem r1 o1 m2 m6 lines') GenCFuncs.G_xrow (TrViOp.del_row r1 (Z.of_nat (length lines'))) /\
+       CLiteProps.cell_at (TrViOp.del_chars_mem r1 o1 m2 m6 lines') GenCFuncs.G_xoff o1.
+Proof. exact TrViOp.del_chars_mem_cur. Qed.
+Print Assumptions C08_tr_vi_delete_chars_cursor.
+(* non-vacuity: a memory with the three lines "ab\n" "cde\n" "f\n" satisfies ed_at; the translated vi_delete / vi_yank RUN on it with the
+   concrete oracle TrViOp.ideal_ext (the allocating callees computed from memory as the record describes them; reg_put, lbuf_edit, vi_drawfix
+   log tag :: integer arguments ++ text): result (value, xrow, xoff, logged calls) *)
+Example C08_tr_viop_mem : forall xr xo : Z,
+       TrViOp.ed_at (TrViOp.op_mem xr xo) (length GenCFuncs.cglobals) (length GenCFuncs.cglobals + 1)
+         (length GenCFuncs.cglobals + 2 :: length GenCFuncs.cglobals + 3 :: length GenCFuncs.cglobals + 4 :: nil) TrViOp.op_lines.
+Proof. exact TrViOp.op_mem_ed. Qed.
+
+Example C08_tr_viop_run : let run := fun (f : nat) (args : list Z) (xr xo : Z) => TrViOp.op_show (CLiteExt.callx TrViOp.ideal_ext GenCFuncs.cprog 50 8 f (map CLite.VInt args) (TrViOp.op_mem xr xo)) in
+       run GenCFuncs.F_vi_delete (0%Z :: 1%Z :: 1%Z :: 2%Z :: 0%Z :: nil) 1%Z 2%Z =
+       Some
+         (CLite.VInt 16, Some (CLite.VInt 0 :: nil), Some (CLite.VInt 1 :: nil),
+          map CLite.VInt (1%Z :: 97%Z :: 0%Z :: 98%Z :: 10%Z :: 99%Z :: 100%Z :: nil)
+          :: map CLite.VInt (2%Z :: 0%Z :: 2%Z :: 97%Z :: 101%Z :: 10%Z :: nil) :: map CLite.VInt (3%Z :: 0%Z :: 1%Z :: 1%Z :: 0%Z :: nil) :: nil) /\
+       run GenCFuncs.F_vi_delete (1%Z :: 0%Z :: 2%Z :: 0%Z :: 1%Z :: nil) 1%Z 0%Z =
+       Some
+         (CLite.VInt 16, Some (CLite.VInt 1 :: nil), Some (CLite.VInt 0 :: nil),
+          map CLite.VInt (1%Z :: 97%Z :: 1%Z :: 99%Z :: 100%Z :: 101%Z :: 10%Z :: 102%Z :: 10%Z :: nil)
+          :: map CLite.VInt (2%Z :: 1%Z :: 3%Z :: nil) :: map CLite.VInt (3%Z :: 1%Z :: 2%Z :: 0%Z :: 0%Z :: nil) :: nil) /\
+       run GenCFuncs.F_vi_yank (0%Z :: 1%Z :: 1%Z :: 2%Z :: 0%Z :: nil) 1%Z 2%Z =
+       Some
+         (CLite.VInt 1, Some (CLite.VInt 0 :: nil), Some (CLite.VInt 1 :: nil), map CLite.VInt (1%Z :: 97%Z :: 0%Z :: 98%Z :: 10%Z :: 99%Z :: 100%Z :: nil) :: nil) /\
+       run GenCFuncs.F_vi_yank (1%Z :: 0%Z :: 2%Z :: 0%Z :: 1%Z :: nil) 1%Z 2%Z =
+       Some
+         (CLite.VInt 0, Some (CLite.VInt 1 :: nil), Some (CLite.VInt 2 :: nil),
+          map CLite.VInt (1%Z :: 97%Z :: 1%Z :: 99%Z :: 100%Z :: 101%Z :: 10%Z :: 102%Z :: 10%Z :: nil) :: nil) /\
+       run GenCFuncs.F_vi_yank (1%Z :: 0%Z :: 2%Z :: 0%Z :: 1%Z :: nil) 2%Z 1%Z =
+       Some
+         (CLite.VInt 1, Some (CLite.VInt 1 :: nil), Some (CLite.VInt 1 :: nil),
+          map CLite.VInt (1%Z :: 97%Z :: 1%Z :: 99%Z :: 100%Z :: 101%Z :: 10%Z :: 102%Z :: 10%Z :: nil) :: nil).
+Proof. exact TrViOp.op_run_examples. Qed.
+Local Open Scope N_scope.
+Local Open Scope Z_scope.
